@@ -602,6 +602,19 @@ def check_xof_many(ctx, o, fname):
                             break
         ctx.ob(problem is None, inst, where, problem or "%d-block stage (%d instructions): every output word equals the spec XOF compression of (cv, block, counter of its lane, block_len, flags); out += %d; counters %s"
                % (W, M.executed, 64 * W, "advanced by %d with carry" % W if res[0] == "branch" and res[1][2] == start else "handed to the next stage"))
+    badloads = []
+    for start, M, res in regs:
+        T = M.T
+        for key, width in M.loads:
+            items, c = dict(key[0]), key[1]
+            if items == {T.sym("rdi"): 1} and c + width <= 32:
+                continue
+            if items == {T.sym("rsi"): 1} and c + width <= 64:
+                continue
+            if items == {T.sym("rsp"): 1} and c == 8 and width == 8:
+                continue            # the seventh argument (outblocks) on the caller's stack
+            badloads.append("+%#x: %d bytes at %s%+d" % (start - insns[0].addr, width, [(T.show(x)[:30], v) for x, v in items.items()], c))
+    ctx.ob(not badloads, "asm-xof-memory:%s" % tag, where, "; ".join(badloads[:3]) or "caller memory is read only at cv[0..32) and block[0..64) and written only at out[0..64*outblocks) stage by stage")
     ctx.floor("xof_many stages (%s)" % o.flavour, nstage, 6)
     # prologue: the counter arrays
     for start, M, res in regs:
